@@ -47,7 +47,7 @@ type JwsSpec struct {
 	SignAlg  string // algorithm used to compute the signature ("" = Alg; "-" = empty signature)
 	Kid      string // loc | otherprov | garbage | ownerloc | noprefix
 	Nonce    string // fresh | reused | foreign | empty | absent | otherprov | near-pad | near-pad2 | near-case | near-trunc | near-space | near-lead (a live nonce respelled)
-	URL      string // same | other | absent | nonstring | case-id | case-path | case-scheme | case-host (request URL with the letter case of that part flipped)
+	URL      string // same | other | absent | nonstring | port-default | port-other | query | fragment | userinfo | slash | dot | escaped (the request URL respelled) | case-id | case-path | case-scheme | case-host (request URL with the letter case of that part flipped)
 	Unprot   string // "" | kid | alg | nonce | extra | jwk
 	NSigs    int
 	Detached bool
@@ -68,6 +68,7 @@ type Case struct {
 	Payload  string // valid | empty | emptyjson | garbage | deactivate | onlyexisting | forged (revoke: self-signed certificate with the victim's serial)
 	ProvSwap bool   // the provisioner named in the URL has been re-created under the same name with another id
 	Mount2   bool   // the request goes to the second mount point of the ACME routes, /2.0/acme
+	Blank    string // the addressed record as an older or damaged store holds it: "" | order-prov | order-acct | cert-acct (that member of the order / certificate record emptied for the request)
 	Legacy   bool   // through the deprecated mounting (api.NewHandler(opts).Route: context built per request from the options)
 	Pre      int    // … whose PrerequisitesChecker answers 0 (true,nil) | 1 (false,nil) | 2 an error
 	Srv      string // "" in-process router | up | reload | restart | migrate: through the real server (stage server)
